@@ -78,6 +78,16 @@ def check_stats(case, ctx):
     from photutils.aperture import ApertureStats, aperture_photometry
     data = build_image(case['image'])
     ny, nx = data.shape
+    if case.get('extreme_pair'):
+        # neighbouring pixels of opposite huge values next to the first
+        # position (hugely negative second moments)
+        px_, py_ = case['positions'][0]
+        j_ = int(min(max(round(py_), 0), ny - 1))
+        i_ = int(min(max(round(px_), 0), nx - 1))
+        data = data.copy()
+        data[j_, i_] = -1e30 * case['extreme_pair']
+        if i_ + 1 < nx:
+            data[j_, i_ + 1] = 1e30 * case['extreme_pair']
     mask = build_mask(case.get('mask'), ny, nx)
     error = None
     if case.get('error_seed') is not None:
@@ -340,6 +350,7 @@ def stats_cases(draw):
             'error_seed': draw(st.one_of(st.none(), st.integers(0, 10**6))),
             'shape': sh,
             'sum_method': draw(st.sampled_from(['exact', 'center', 'subpixel'])),
+            'extreme_pair': draw(st.sampled_from([0, 0, 0, 0, 1, -1])),
             'subpixels': draw(st.sampled_from([1, 2, 5, 8])),
             'positions': draw(positions_around(ny, nx, reach, 1, 5)),
             'scalar': draw(st.booleans()),
@@ -367,5 +378,5 @@ SUBCHECKS = [
     SubCheck('stats', stats_cases(), check_stats,
              'non-trivial = aperture clipped by an image edge (each side '
              'counted), or a masked / sigma-clipped pixel inside the aperture',
-             quick=(16, 400), thorough=(16, 8000)),
+             quick=(16, 400), thorough=(16, 8000), hang_is_violation=True),
 ]
